@@ -1500,12 +1500,17 @@ class TLSConnection(TLSRecordLayer):
             else:
                 sig_algs_ext = clientHello.getExtension(
                     ExtensionType.signature_algorithms)
+                # the scheme must be one we advertised and one that can be
+                # used with the key in the certificate
+                valid_sig_algs = self._sigHashesToList(
+                    settings, certList=serverCertChain, version=(3, 4))
                 if not sig_algs_ext or \
-                        signature_scheme not in sig_algs_ext.sigalgs:
+                        signature_scheme not in sig_algs_ext.sigalgs or \
+                        signature_scheme not in valid_sig_algs:
                     for result in self._sendError(
                             AlertDescription.illegal_parameter,
                             "Server selected signature algorithm we didn't "
-                            "advertise"):
+                            "advertise or invalid for its certificate"):
                         yield result
 
             if signature_scheme in (SignatureScheme.ed25519,
